@@ -140,11 +140,27 @@ func (con *Connection) Write(b []byte) (int, error) {
 
 // Read reads bytes from the connection. The read bytes are decrypted when possible.
 func (con *Connection) Read(b []byte) (int, error) {
+	if con.buffered == nil {
+		con.buffered = bufio.NewReader(con.connection)
+	}
+
+	// Wait until bytes are available before deciding whether they are encrypted.
+	// A read may be started (e.g. by the http server in the background) before the
+	// session is switched to encryption and return when the first encrypted bytes
+	// arrive – those must not be handed out as plain bytes. It also makes sure that
+	// the session is not switched (which happens when asking for the decrypter)
+	// before the response of the pair verify request is written.
+	if con.readBuffer == nil {
+		if _, err := con.buffered.Peek(1); err != nil {
+			return 0, err
+		}
+	}
+
 	if con.getDecrypter() != nil {
 		return con.DecryptedRead(b)
 	}
 
-	return con.connection.Read(b)
+	return con.buffered.Read(b)
 }
 
 // Close closes the connection and deletes the related session from the context.
